@@ -133,6 +133,7 @@ func (ex *Exec) step(st *State) {
 		st.blockedStreak++
 	} else {
 		st.blockedStreak = 0
+		co.parked = false
 	}
 }
 
